@@ -208,7 +208,7 @@ def cell_text(field, k, arg, base, salt, other_name, col=0):
         src = base.strip() if base.strip().isdigit() else "7"
         return "".join(chr(0x0660 + int(ch)) for ch in src)
     if k == "odd":
-        return ['we"ird, name', "naïve ✓", "#hash", "a\nb"][salt % 4] + (" %d" % col if salt % 8 >= 4 else "") + "." * col
+        return ['we"ird, name', "naïve ✓", "#hash", "a\nb", "hd_{1080p50}", "{}", "{0} %s %(x)s", "}{"][salt % 8] + (" %d" % col if salt % 16 >= 8 else "") + "." * col
     if k.startswith("auto_"):
         # an explicit name spelled like the name the reader generates for an unnamed column t
         return ["%s", " %s", "%s\t"][salt % 3] % auto_name(int(k[5:]))
